@@ -34,6 +34,9 @@ class PathLimit(Undecided):
 
 
 _counter = itertools.count()
+import os as _os
+
+_DEBUG = bool(_os.environ.get("PYVC_DEBUG"))
 
 
 def fresh_name(prefix):
@@ -122,16 +125,32 @@ class SymSeq:
     used by the isinstance model.
     """
 
-    __slots__ = ("length", "fn", "pycls", "note")
+    __slots__ = ("length", "fn", "pycls", "note", "memo")
 
     def __init__(self, length, fn, pycls=list, note=None):
         self.length = length
         self.fn = fn
         self.pycls = pycls
         self.note = note
+        self.memo = {}
 
     def at(self, k):
-        return self.fn(k)
+        """element k; evaluations are memoised per index term (deterministic, facts only grow on a path)"""
+        if isinstance(k, Sym):
+            key = ("t", z3.simplify(k.term).get_id())
+            kk = k
+        elif z3.is_expr(k):
+            key = ("t", z3.simplify(k).get_id())
+            kk = Sym(k, int)
+        else:
+            key = ("c", k)
+            kk = k
+        hit = self.memo.get(key)
+        if hit is not None:
+            return hit[0]
+        v = self.fn(kk)
+        self.memo[key] = (v, k)
+        return v
 
     def len_term(self):
         return z3_of(self.length)
@@ -174,14 +193,39 @@ class Path:
         self.fork_positions = {}  # decision position -> index-context depth at the time of the fork
 
     # -- solver helpers -----------------------------------------------------------------------
-    def _solver(self):
-        s = z3.Solver()
-        s.set("timeout", self.timeout_ms)
-        s.add(*self.hyps)
-        s.add(*self.pc)
+    def _solvers(self):
+        """two persistent incremental solvers: ground (path condition only) and full (+ hypotheses)"""
+        if getattr(self, "_full", None) is None:
+            self._full = z3.Solver()
+            self._full.set("timeout", self.timeout_ms)
+            # entailment-only use: proofs come from E-matching on the stated triggers; model-based quantifier
+            # instantiation is switched off so that non-theorems give "unknown" quickly instead of searching a model
+            self._full.set("smt.mbqi", False)
+            self._full.set("auto_config", False)
+            self._full.set("rlimit", 3_000_000)
+            self._full.set("smt.arith.nl.rounds", 64)
+            self._ground = z3.Solver()
+            self._ground.set("timeout", min(self.timeout_ms, 1000))
+            self._n_hyps = 0
+            self._n_pc = 0
+        while self._n_hyps < len(self.hyps):
+            self._full.add(self.hyps[self._n_hyps])
+            self._n_hyps += 1
+        if self._n_pc > len(self.pc):  # pc was truncated (merged conditional): rebuild
+            self._full = None
+            return self._solvers()
+        while self._n_pc < len(self.pc):
+            self._full.add(self.pc[self._n_pc])
+            self._ground.add(self.pc[self._n_pc])
+            self._n_pc += 1
+        return self._ground, self._full
+
+    def _ctx(self):
+        out = list(getattr(self, "temp", ()))
         for iv, lo, hi in self.index_ctx:
-            s.add(iv >= lo, iv < hi)
-        return s
+            out.append(iv >= lo)
+            out.append(iv < hi)
+        return out
 
     def _check(self, s, *extra):
         import time
@@ -193,8 +237,12 @@ class Path:
         return r
 
     def feasible(self, cond):
-        s = self._solver()
-        return self._check(s, cond)
+        """sat / unsat / unknown for pc ∧ hyps ∧ cond"""
+        g, f = self._solvers()
+        ctx = self._ctx()
+        if self._check(g, cond, *ctx) == z3.unsat:
+            return z3.unsat
+        return self._check(f, cond, *ctx)
 
     def assume(self, cond):
         self.pc.append(cond)
@@ -204,8 +252,38 @@ class Path:
 
     def entails(self, cond):
         """True iff pc ∧ hyps ⇒ cond is proved (unsat of the negation)."""
-        s = self._solver()
-        return self._check(s, z3.Not(cond)) == z3.unsat
+        cond = z3.simplify(cond)
+        if z3.is_true(cond):
+            return True
+        if z3.is_false(cond):
+            return False
+        key = cond.get_id()
+        memo = self.__dict__.setdefault("_entail_memo", {})
+        ctx_key = tuple(c.get_id() for c in self._ctx())
+        stamp = (len(self.pc), len(self.hyps), ctx_key)
+        if key in memo:
+            r0, st0, _ = memo[key]
+            # monotone: facts only grow along a path; temporary assumptions must be a prefix of the current ones
+            if r0 is True and st0[2] == ctx_key[: len(st0[2])]:
+                return True
+            if st0 == stamp:
+                return r0
+        r = self.feasible(z3.Not(cond)) == z3.unsat
+        memo[key] = (r, stamp, cond)
+        return r
+
+    def pick(self, cond, a, b):
+        """context-aware ite: choose a branch when the path decides the condition, else build If"""
+        cond = z3.simplify(cond)
+        if z3.is_true(cond):
+            return a
+        if z3.is_false(cond):
+            return b
+        if self.entails(cond):
+            return a
+        if self.entails(z3.Not(cond)):
+            return b
+        return z3.If(cond, a, b)
 
     def decide(self, cond):
         """Return the truth value of a symbolic condition on this path, forking if both are possible."""
@@ -214,13 +292,12 @@ class Path:
             return True
         if z3.is_false(cond):
             return False
-        s = self._solver()
-        rt = self._check(s, cond)
-        rf = self._check(s, z3.Not(cond))
-        can_t = rt != z3.unsat
-        can_f = rf != z3.unsat
-        if rt == z3.unknown or rf == z3.unknown:
-            self.assumed_feasible += 1
+        # entailment-only: a branch is explored unless it is refuted (over-approximation of feasibility)
+        must_t = self.entails(cond)
+        must_f = (not must_t) and self.entails(z3.Not(cond))
+        if must_t and self.entails(z3.Not(cond)):
+            raise DeadPath()
+        can_t, can_f = not must_f, not must_t
         if can_t and can_f:
             if self.pos < len(self.decisions):
                 d = self.decisions[self.pos]
@@ -231,13 +308,8 @@ class Path:
                 self.decisions.append(True)
             self.fork_positions[self.pos] = len(self.index_ctx)
             self.pos += 1
-        elif can_t:
-            d = True
-        elif can_f:
-            d = False
         else:
-            # path condition itself is infeasible: this path is dead
-            raise DeadPath()
+            d = can_t
         self.pc.append(cond if d else z3.Not(cond))
         return d
 
@@ -286,6 +358,9 @@ def explore(run, hyps=(), timeout_ms=3000, max_paths=256, max_decisions=400):
             res = PathResult(p, "raise", exc=e, extra=extra)
         if res is not None:
             results.append(res)
+            if _DEBUG:
+                print(f"[explore] path {len(results)}: {res.outcome} {res.exc!r:.150} decisions={p.decisions} "
+                      f"solver={p.solver_calls} calls {p.solver_seconds:.1f}s", flush=True)
         for i in range(len(dec), len(p.decisions)):
             stack.append(p.decisions[:i] + [False])
     return results
